@@ -77,8 +77,10 @@ class Key(object):
             public_pair = self._secret_exponent * self._generator
             self._public_pair = public_pair
 
-        if (None in self._public_pair) or (
-            not self._generator.contains_point(*self._public_pair)
+        if (
+            (None in self._public_pair)
+            or not all(0 <= c < self._generator.p() for c in self._public_pair)
+            or not self._generator.contains_point(*self._public_pair)
         ):
             raise InvalidPublicPairError()
 
